@@ -15,6 +15,7 @@ PROFILES = [
     (3, dict(_base)),
     (2, dict(_base, name="faults-dag", p_old=0.45, p_let=0.3, p_sync=0.15)),
     (1, dict(_base, name="faults-nested", max_width=5, p_dict=0.2)),
+    (2, dict(_base, name="recover", p_try=0.5, p_none=0.35, p_raise=0.05, max_stmts=5)),
 ]
 
 
@@ -24,5 +25,16 @@ def _nontrivial(c):
     return faults >= 1 and s["nested"] + s["yields"] >= 2
 
 
+def _recover(next_struct):
+    return {"roots": [[
+        {"op": "try", "body": [{"op": "yield", "x": "x1", "s": {"new": {"error": 7}}}], "x": "x2", "handler": []},
+        {"op": "yield", "x": "x3", "s": next_struct},
+        {"op": "yield", "x": "x4", "s": {"tuple": [{"new": {"const": 3}}, {"list": []}]}},
+        {"op": "return", "e": {"tuple": [{"var": "x3"}, {"var": "x4"}]}}]], "params": {"kinds": {}}}
+
+
+_CORPUS = [_recover(None), _recover({"list": []}), _recover({"tuple": []}), _recover({"dict": []}),
+           _recover({"tuple": [None, {"list": [None]}]})]
+
 mach.install(globals(), "C02", ("EvStep", "EvGot", "EvDone"), ("C02:",), PROFILES, n_quick=300, n_thorough=5000,
-             nontrivial=_nontrivial, level="proof")
+             nontrivial=_nontrivial, level="proof", corpus=_CORPUS)
